@@ -93,6 +93,9 @@ def rename (old : String) (newNs newName : String) (r : Reg) : Except Err (Task 
 /-- `TaskRegistry.get(task_name=...)`. -/
 def get (name : String) (r : Reg) : Option Task := lookup name r.tasks
 
+/-- `TaskRegistry.get(hash=...)`: the first registered task (in `_tasks` order) with that hash. Read-only. -/
+def getByHash (h : H) (r : Reg) : Option Task := (r.tasks.find? fun p => p.2.hash == h).map (·.2)
+
 /-- `TaskRegistry.task_hashes` (as a list, in `_task_hash_counts` order). -/
 def taskHashes (r : Reg) : List H := (r.counts.filter fun p => p.2 > 0).map (·.1)
 
@@ -148,6 +151,9 @@ inductive Op where
   | define (t : Task)                 -- `@task(name=, namespace=)`: `registry.add(Task(...))` (also a redefinition)
   | rename (old newNs newName : String)
   | wrap (target : String) (wname : String) (woid : Nat) (wh : H → H)   -- wrapper applied to the task registered as `target`
+  | getName (name : String)           -- `registry.get(task_name=...)`   (read-only queries: the answer is `get` /
+  | getHash (h : H)                   -- `registry.get(hash=...)`         `getByHash` of the current registry,
+  | iterate                           -- `list(registry)`                 the registry itself is unchanged)
 
 def step (r : Reg) : Op → Reg
   | .define t => add t r
@@ -158,6 +164,9 @@ def step (r : Reg) : Op → Reg
     match get target r with
     | none => r
     | some t => (wrap t wname woid wh r).1
+  | .getName _ => r
+  | .getHash _ => r
+  | .iterate => r
 
 def run (ops : List Op) : Reg := ops.foldl step Reg.empty
 
